@@ -726,6 +726,48 @@ def rule_edge(ctx):
     else:
         r.violation(k, C.loc(f, lp), "the index → tensors map is not updated symmetrically (consumed tensor "
                     "removed, new tensor added) for the remaining indices: later indices contract stale ids")
+    # (seed C05_5) the re-homing visits each remaining index of a consumed tensor *once*: the per-tensor index
+    # collections it iterates are sets — a raw input term lists a repeated (trace / diagonal) index twice, and
+    # the second `remove` of the consumed id from that index's carrier set fails
+    k = ctx.key(f, "C10-EDGE", "index-sets")
+    inner = [n for n in ast.walk(lp) if isinstance(n, ast.For) and n is not lp and isinstance(n.iter, ast.Call)
+             and isinstance(n.iter.func, ast.Attribute) and n.iter.func.attr in ("pop", "get", "__getitem__")]
+    inner += [n for n in ast.walk(lp) if isinstance(n, ast.For) and n is not lp and isinstance(n.iter, ast.Subscript)]
+    tables = {dotted(n.iter.func.value) if isinstance(n.iter, ast.Call) else dotted(n.iter.value) for n in inner}
+    tables.discard(None)
+    probs = []
+    n_tab = 0
+    for tb in sorted(tables):
+        # every value stored into the table (and every whole-table construction) is a set
+        vals = []
+        for n in walk_local(f.node):
+            if isinstance(n, ast.Assign):
+                for t in n.targets:
+                    if isinstance(t, ast.Subscript) and dotted(t.value) == tb:
+                        vals.append((n, n.value))
+                    if isinstance(t, ast.Name) and t.id == tb:
+                        vals.append((n, n.value))
+        if not vals:
+            continue
+        n_tab += 1
+        la = ctx.r.local_assignments(f)
+        for st, v in vals:
+            vv = v
+            if isinstance(vv, ast.Name) and len(la.get(vv.id, [])) >= 1:
+                vv = la[vv.id][0]
+            is_set = (isinstance(vv, ast.Call) and dotted(vv.func) in ("set", "frozenset")) or isinstance(vv, (ast.Set, ast.SetComp)) \
+                or (isinstance(vv, ast.Dict) and not vv.keys) \
+                or (isinstance(vv, ast.BinOp) and isinstance(vv.op, (ast.BitOr, ast.BitAnd, ast.Sub)))
+            is_map_of_sets = isinstance(vv, ast.DictComp) and isinstance(vv.value, ast.Call) and dotted(vv.value.func) in ("set", "frozenset")
+            if not (is_set or is_map_of_sets):
+                probs.append(f"`{C.unparse(st, 60)}`: the indices of a tensor are kept as given, not as a set")
+    if probs:
+        r.violation(k, C.loc(f, lp), probs[0] + " — a tensor with a repeated index is re-homed twice for that index "
+                    "(KeyError on the second removal, or a doubled carrier)")
+    elif n_tab:
+        r.ok(k, C.loc(f, lp), f"the per-tensor index collections iterated while re-homing ({sorted(tables)}) hold sets")
+    else:
+        r.exempt(k, C.loc(f, lp), "re-homing loop over a per-tensor table not recognised: not decided")
     return r
 
 
